@@ -54,6 +54,9 @@ func NondetRange(id int, lo int, hi int) int { return lo }
 func NondetString(id int, maxLen int) string { return "" }
 
 //go:noinline
+func NondetUint32L(id int) uint32 { return 0 }
+
+//go:noinline
 func NondetInt64R(id int, lo, hi int64) int64 { return lo }
 
 //go:noinline
